@@ -16,12 +16,13 @@ Proved in full (all byte strings, all nine systems unless stated):
 * `token_total` — the constraint tokenizer never panics (uses the regenerated fact that
   the operator table has an entry for every system: repair F1);
 * `compare_total` — `System.Compare` never panics, for the eight systems whose comparator
-  is proved lawful in C01 (Maven: the `panic(bCategory)` site is covered by the
-  correspondence run only).
-NOT proved (correspondence + fuzz oracle only): `ParseConstraint`, `ParseSetConstraint`,
-`Match*`, `Difference`, Maven `Compare`, and every entry point outside util/semver
-(PEP 508 / metadata / wheel / sdist parsers, POM processing, schema parsers, resolvers),
-which the harness exercises as Go-only probes under `recover` and a deadline.
+  is proved lawful in C01.
+`Props/C04b.lean` continues: `compare_total_all` (all nine systems, Maven included),
+`difference_total`, `parseConstraint_total`, `parseSetConstraint_total`, `match_total`,
+`matchSet_total`, `matchVersion_total`, `matchVersionPrerelease_total`, `inc_total`.
+NOT proved here (fuzz probes under `recover` and a deadline only): entry points outside
+util/semver (PEP 508 / metadata / wheel / sdist parsers, POM processing, schema parsers,
+resolvers); C15, C16 and C19 prove no-panic for the models of their own parsers.
 -/
 namespace DepsDev.Props.C04
 
